@@ -530,6 +530,18 @@ class Interp:
                         raise builtin_error()
                     ne.vars[c[1]] = x[0]
                     ne.vars[c[2]] = x[1]
+                elif c[0] == "insplat":     # a, ...t <- rows
+                    if not isinstance(x, list):
+                        if isinstance(x, (str, NDict)):
+                            raise Decline("destructuring str/dict")
+                        raise builtin_error()
+                    if len(x) < 1:
+                        raise builtin_error()
+                    ne.vars[c[1]] = x[0]
+                    ne.vars[c[2]] = list(x[1:])
+                elif c[0] == "idxsplat":    # i, ...t <<- xs : the pattern meets the pair [index, element]
+                    ne.vars[c[1]] = i
+                    ne.vars[c[2]] = [x]
                 else:   # ("idx", iname, xname, e)
                     ne.vars[c[1]] = i
                     ne.vars[c[2]] = x
@@ -714,6 +726,10 @@ def render(n):
                 cs.append("%s, %s <- %s" % (c[1], c[2], render(c[3])))
             elif c[0] == "idx":
                 cs.append("%s, %s <<- %s" % (c[1], c[2], render(c[3])))
+            elif c[0] == "insplat":
+                cs.append("%s, ...%s <- %s" % (c[1], c[2], render(c[3])))
+            elif c[0] == "idxsplat":
+                cs.append("%s, ...%s <<- %s" % (c[1], c[2], render(c[3])))
             elif c[0] == "if":
                 cs.append("if %s" % render(c[1]))
             else:
